@@ -10,6 +10,12 @@ CLAIMED = {
     text='Every call of fortran_float/fortran_int made by the workload (generated Fortran renderings with value known by construction, arbitrary printable strings, integer paddings) and every in-situ call made by the library while it reads shipped listing and initial-condition files is compared online with an independent recursive-descent Fortran reader; a call that does not return is an escaped exception. Held on the executions observed; the input space is unbounded, hence exploration.',
     note='Trusted: CPython float()/int() for the decimal->binary conversion of a canonical rendering; the oracle in vf/oracle/fortran_read.py. Texts made only of number characters that are not well-formed numbers, and texts whose only foreign character is "_", are unconstrained by the statement (no-raise only).',
     design='DESIGN.md §3 C16'),
+
+ 'C17': dict(
+    technique='runtime enumeration monitor: own capacity arithmetic and (A3,I2) formatter as oracles, icontract post-conditions on fix/unfix, geometry construction at capacity limits',
+    text='The real name generators are called for every integer of the walked range in 64 configurations and compared with own bijective-numeration arithmetic (distinctness, length, character set, exact capacity at which NamingConventionError must appear); rectangular geometries are built at sizes straddling every capacity limit with the outcome predicted by the oracle and every block name split back into the (column, layer) it was built from; fix/unfix/cycle clauses are evaluated on all 6^5 names over a class-complete alphabet plus random names, with icontract post-conditions on the real functions. Exploration: finite sub-spaces are enumerated completely (stated in the evidence), the property as a whole is unbounded.',
+    note='Trusted: own capacity arithmetic (vf/props/c17.py capacity()), own (A3,I2) formatter; alphabetic character sets only (as the quantifier states). The printed-form clause is evaluated only for names the simulator can hold (4th character digit/blank, 5th digit).',
+    design='DESIGN.md §3 C17'),
 }
 
 def main():
